@@ -38,11 +38,28 @@ def expand(text, vars=(), depth=0):
             continue
         if d == '(' or d == '{':
             close = ')' if d == '(' else '}'
-            j = text.find(close, i + 2)
-            if j < 0:
+            # matching close, counting nested references of the same bracket kind
+            depth_b = 0
+            j = i + 2
+            while j < n:
+                if text[j] == d:
+                    depth_b += 1
+                elif text[j] == close:
+                    if depth_b == 0:
+                        break
+                    depth_b -= 1
+                j += 1
+            if j >= n:
                 return None
             name = text[i + 2:j]
             i = j + 1
+            sp = name.find(' ')
+            if sp > 0 and (name[:sp] == 'patsubst' or name[:sp] == 'subst'):
+                r = _function(name[:sp], name[sp + 1:], vars, depth)
+                if r is None:
+                    return None
+                out += r
+                continue
         else:
             name = d
             i += 2
@@ -57,6 +74,76 @@ def expand(text, vars=(), depth=0):
                 return None
         out += val
     return out
+
+
+def _split_args(text):
+    """function arguments: split at commas outside nested $( ) / ${ }"""
+    args = []
+    cur = ''
+    depth = 0
+    for ch in text:
+        if ch == '(' or ch == '{':
+            depth += 1
+        elif ch == ')' or ch == '}':
+            depth -= 1
+        if ch == ',' and depth == 0:
+            args.append(cur)
+            cur = ''
+        else:
+            cur += ch
+    args.append(cur)
+    return args
+
+
+def _words(text):
+    out = []
+    cur = ''
+    for ch in text:
+        if ch == ' ' or ch == '\t' or ch == '\n':
+            if cur != '':
+                out.append(cur)
+                cur = ''
+        else:
+            cur += ch
+    if cur != '':
+        out.append(cur)
+    return out
+
+
+def _function(fname, argtext, vars, depth):
+    """$(subst from,to,text) and $(patsubst pattern,replacement,text) (function.c); the first
+    argument keeps its leading blanks stripped as Make does for every function"""
+    raw = _split_args(lstrip_blank(argtext))
+    if len(raw) < 3:
+        return None
+    if len(raw) > 3:
+        raw = raw[:2] + [','.join(raw[2:])]
+    args = []
+    for a in raw:
+        e = expand(a, vars, depth + 1)
+        if e is None:
+            return None
+        args.append(e)
+    if fname == 'subst':
+        if args[0] == '':
+            return args[2] + args[1]
+        return args[2].replace(args[0], args[1])
+    # patsubst: word by word, whitespace normalised to single blanks
+    pat, rep, text = args
+    k = pat.find('%')
+    res = []
+    for w in _words(text):
+        if k < 0:
+            res.append(rep if w == pat else w)
+            continue
+        pre, suf = pat[:k], pat[k + 1:]
+        if len(w) >= len(pre) + len(suf) and w.startswith(pre) and w.endswith(suf):
+            stem = w[len(pre):len(w) - len(suf)]
+            kr = rep.find('%')
+            res.append(rep if kr < 0 else rep[:kr] + stem + rep[kr + 1:])
+        else:
+            res.append(w)
+    return ' '.join(res)
 
 
 def strip_recipe_prefix(line):
